@@ -315,6 +315,66 @@ Proof.
       * apply Hq. intros H. apply Hi. now right.
 Qed.
 
+(* eliminate a set of variables, cheapest first (a variable carried by an equality costs nothing;
+   otherwise the Fourier-Motzkin product |pos| * |neg|); same exactness statement as [elim_vars] *)
+Definition cost (k : nat) (s : sys) : nat :=
+  if existsb (fun e => negb (Z.eqb (lcoef e k) 0)) (eqs s) then O
+  else (length (poss k (ineqs s)) * length (negs k (ineqs s)))%nat.
+
+Fixpoint pick_best (s : sys) (best : nat) (bc : nat) (ks : list nat) : nat :=
+  match ks with
+  | [] => best
+  | k :: ks' => let c := cost k s in if Nat.ltb c bc then pick_best s k c ks' else pick_best s best bc ks'
+  end.
+
+Lemma pick_best_in s ks : forall best bc, pick_best s best bc ks = best \/ In (pick_best s best bc ks) ks.
+Proof.
+  induction ks as [|k ks IH]; intros best bc; cbn [pick_best]; [now left|].
+  destruct (Nat.ltb (cost k s) bc).
+  - destruct (IH k (cost k s)) as [H|H]; [right; left; now rewrite H|right; now right].
+  - destruct (IH best bc) as [H|H]; [now left|right; now right].
+Qed.
+
+Fixpoint elim_best (fuel : nat) (ks : list nat) (s : sys) : sys :=
+  match fuel, ks with
+  | S f, k0 :: ks' =>
+      let k := pick_best s k0 (cost k0 s) ks' in
+      elim_best f (remove Nat.eq_dec k ks) (elim_sys k s)
+  | _, _ => elim_vars ks s
+  end.
+
+Theorem elim_best_exact fuel : forall ks s p,
+  (exists q, (forall i, ~ In i ks -> q i == p i) /\ sat_sys s q) <-> sat_sys (elim_best fuel ks s) p.
+Proof.
+  induction fuel as [|f IH]; intros ks s p; [destruct ks; apply elim_vars_exact|].
+  destruct ks as [|k0 ks']; [apply elim_vars_exact|]. cbn [elim_best].
+  set (k := pick_best s k0 (cost k0 s) ks'). set (ks := k0 :: ks').
+  assert (Hk : In k ks).
+  { unfold k, ks. destruct (pick_best_in s ks' k0 (cost k0 s)) as [H|H]; [left; now rewrite H|now right]. }
+  assert (Hin : forall i, In i ks <-> i = k \/ In i (remove Nat.eq_dec k ks)).
+  { intros i. split.
+    - intros Hi. destruct (Nat.eq_dec i k) as [->|Hne]; [now left|right]. apply in_in_remove; auto.
+    - intros [->|Hi]; [exact Hk|]. now apply in_remove in Hi. }
+  rewrite <- IH. split.
+  - intros [q [Hq Hs]]. exists (upd q k (p k)). split.
+    + intros i Hi. unfold upd. destruct (Nat.eqb_spec i k) as [->|Hne]; [reflexivity|].
+      apply Hq. intros H. apply Hin in H. destruct H as [H|H]; [congruence|contradiction].
+    + apply elim_sys_exact. exists (q k).
+      apply (sat_sys_ext s q); [|exact Hs]. apply peq_sym.
+      intros i. rewrite (upd_upd q k (p k) (q k) i). apply (upd_same q k i).
+  - intros [q [Hq Hs]]. apply elim_sys_exact in Hs. destruct Hs as [v Hv].
+    exists (upd q k v). split; [|exact Hv].
+    intros i Hi. unfold upd. destruct (Nat.eqb_spec i k) as [->|Hne].
+    + exfalso. apply Hi. exact Hk.
+    + apply Hq. intros H. apply Hi. apply Hin. now right.
+Qed.
+
+Definition elim_set (ks : list nat) (s : sys) : sys := elim_best (length ks) ks s.
+
+Theorem elim_set_exact ks s p :
+  (exists q, (forall i, ~ In i ks -> q i == p i) /\ sat_sys s q) <-> sat_sys (elim_set ks s) p.
+Proof. apply elim_best_exact. Qed.
+
 (* ---------------------------------------------------------------------------------------- *)
 (* decision procedures *)
 
@@ -342,7 +402,7 @@ Proof.
 Qed.
 
 Definition nonempty_sys (n : nat) (s : sys) : option bool :=
-  let r := elim_vars (seq 0 n) s in
+  let r := elim_set (seq 0 n) s in
   if closed_sys r then Some (consts_ok r) else None.
 
 Theorem nonempty_sys_exact n s b :
@@ -351,8 +411,8 @@ Proof.
   unfold nonempty_sys. destruct (closed_sys _) eqn:C; [|discriminate]. intros [= <-].
   split.
   - intros H. apply (closed_sys_sat _ (fun _ => 0) C) in H.
-    apply elim_vars_exact in H. destruct H as [q [_ Hq]]. now exists q.
-  - intros [p Hp]. apply (closed_sys_sat _ p C). apply elim_vars_exact.
+    apply elim_set_exact in H. destruct H as [q [_ Hq]]. now exists q.
+  - intros [p Hp]. apply (closed_sys_sat _ p C). apply elim_set_exact.
     exists p. split; [reflexivity|exact Hp].
 Qed.
 
